@@ -45,6 +45,15 @@ func (t *iTracer) CaptureState(env *ivm.EVM, pc uint64, op ivm.OpCode, gas, cost
 		return nil
 	}
 	o := byte(op)
+	if (o == 0x56 || (o == 0x57 && stack.Back(1).Sign() != 0)) && len(t.c.trace) < maxTrace {
+		kind := "prestate"
+		if contract.CodeHash == (icommon.Hash{}) {
+			kind = "init"
+		} else if len(t.c.createdAddrs) > 0 && isCreatedIn(fmt.Sprintf("%x", contract.Address().Bytes()), t.c) {
+			kind = "fresh"
+		}
+		t.c.jump(kind, contract.Code, stack.Back(0))
+	}
 	if !interesting(o) {
 		t.c.count(depth, pc, o, contract.Gas, 0, 0)
 		return nil
@@ -78,6 +87,10 @@ func (t *iTracer) CaptureState(env *ivm.EVM, pc uint64, op ivm.OpCode, gas, cost
 		mem:     memory.Get,
 		self:    func() string { return fmt.Sprintf("%x", contract.Address().Bytes()) },
 		gasLeft: env.GasLeft(),
+		acct: func(a string) acctView {
+			ad := icommon.HexToAddress(a)
+			return acctView{exist: env.StateDB.Exist(ad), empty: env.StateDB.Empty(ad), code: env.StateDB.GetCodeSize(ad) > 0, suicided: env.StateDB.HasSuicided(ad)}
+		},
 		reqGas: func(a byte, in []byte) uint64 {
 			return ivm.PrecompiledContractsByzantium[icommon.BytesToAddress([]byte{a})].RequiredGas(in)
 		},
@@ -104,8 +117,12 @@ func runInTree(c EVMCase, deployed bool) (res *result) {
 	if err != nil {
 		panic(err)
 	}
+	res.tr.preEmpty = map[string]bool{}
 	for _, a := range c.Accounts {
 		ad := icommon.BytesToAddress(a.Addr)
+		if a.Nonce == 0 && len(a.Code) == 0 && new(big.Int).SetBytes(a.Balance).Sign() == 0 {
+			res.tr.preEmpty[fmt.Sprintf("%x", ad[:])] = true
+		}
 		st.SetBalance(ad, new(big.Int).SetBytes(a.Balance))
 		st.SetNonce(ad, a.Nonce)
 		if len(a.Code) > 0 {
